@@ -151,6 +151,33 @@ pub fn universe_b_lifted(sc: &uni::Scratch, variant: usize, lift: usize) -> Tree
 	tb.finish()
 }
 
+/// Universe E (Options::SKIP_POW, explicit difficulties, as the repository's own fork tests): sibling blocks of
+/// EQUAL SHAPE - same height, same number of inputs and outputs - that spend different outputs, with difficulties
+/// chosen so that the head moves from one sibling straight to the other (a reorganisation that leaves the output
+/// MMR size, the number of unspent leaves and the last leaf position unchanged), and back through longer forks.
+pub fn universe_e(sc: &uni::Scratch) -> Tree {
+	let mut tb = TreeBuilder::new(sc, 14, true);
+	let kc = uni::keychain(14);
+	let mut prev = None;
+	for h in 1..=4u32 {
+		prev = Some(tb.add_with_difficulty(&format!("m{}", h), prev, &BlockSpec::empty(h), 2));
+	}
+	let m4 = prev.unwrap();
+	let v = REWARD - M;
+	// three siblings at height 5, each one input and two outputs (coinbase + change)
+	let a5 = tb.add_with_difficulty("a5", Some(m4), &BlockSpec::with(5, vec![uni::spend_coinbase(&kc, 1, REWARD, &[(100, v)], 1)]), 1);
+	let b5 = tb.add_with_difficulty("b5", Some(m4), &BlockSpec::with(55, vec![uni::spend_coinbase(&kc, 2, REWARD, &[(102, v)], 2)]), 3);
+	let _c5 = tb.add_with_difficulty("c5", Some(m4), &BlockSpec::with(65, vec![uni::spend_coinbase(&kc, 1, REWARD, &[(104, v)], 3)]), 2);
+	// the lighter sibling's chain overtakes, then the heavier one's again (each again with equal shapes)
+	let _a6 = tb.add_with_difficulty("a6", Some(a5), &BlockSpec::with(6, vec![uni::spend_coinbase(&kc, 2, REWARD, &[(106, v)], 4)]), 5);
+	let _b6 = tb.add_with_difficulty("b6", Some(b5), &BlockSpec::with(56, vec![uni::spend_coinbase(&kc, 1, REWARD, &[(108, v)], 5)]), 4);
+	// invalid on their own ancestors: the sibling's spend repeated, the sibling's output spent
+	tb.add_invalid_with_difficulty("i:cb1-again-on-a5", Some(a5), &BlockSpec::with(81, vec![uni::spend_coinbase(&kc, 1, REWARD, &[(110, v)], 6)]), 9);
+	tb.add_invalid_with_difficulty("i:a5-output-on-b5", Some(b5), &BlockSpec::with(82, vec![uni::spend_plain(&kc, &[(100, v)], &[(111, v - M)], None, 7)]), 9);
+	tb.add_invalid_with_difficulty("i:cb2-again-on-b5", Some(b5), &BlockSpec::with(83, vec![uni::spend_coinbase(&kc, 2, REWARD, &[(112, v)], 8)]), 9);
+	tb.finish()
+}
+
 struct Inv02 {
 	inst: String,
 }
@@ -205,6 +232,11 @@ impl Invariant for Inv02 {
 }
 
 fn explore_tree(tree: &Tree, inst: &str, sc: &uni::Scratch, shard: usize, n: usize, reopen: bool, rep: &mut Report) {
+	explore_tree_opts(tree, inst, sc, shard, n, reopen, Options::NONE, rep)
+}
+
+#[allow(clippy::too_many_arguments)]
+fn explore_tree_opts(tree: &Tree, inst: &str, sc: &uni::Scratch, shard: usize, n: usize, reopen: bool, opts: Options, rep: &mut Report) {
 	let mut inv = Inv02 { inst: inst.to_string() };
 	// the lifting blocks p1..pN are applied once, below every history
 	let is_lift = |i: usize| tree.blocks[i].name.starts_with('p');
@@ -219,7 +251,7 @@ fn explore_tree(tree: &Tree, inst: &str, sc: &uni::Scratch, shard: usize, n: usi
 			}
 		}
 	}
-	let mut ex = Explorer::with_prelude(tree, sc, Options::NONE, inst, &prelude);
+	let mut ex = Explorer::with_prelude(tree, sc, opts, inst, &prelude);
 	ex.live_check = if reopen { 2 } else { 1 }; // thorough (= with reopen probes): probes offered to the long-lived node too
 	ex.shard = (shard, n);
 	// valid blocks form the histories; reference-invalid blocks are probes at every state
@@ -264,6 +296,14 @@ fn forks(tier: Tier, shard: usize, n: usize) -> Report {
 				});
 			}
 		}
+	}
+	// equal-shape siblings with explicit difficulties (SKIP_POW), reopen probes in both tiers
+	{
+		let scr = &sc;
+		crate::chainx::guarded("E", &mut rep, move |rep| {
+			let te = universe_e(scr);
+			explore_tree_opts(&te, "E", scr, shard, n, true, Options::SKIP_POW, rep);
+		});
 	}
 	// sanity of the universes themselves (vacuity guard): count reference-invalid blocks
 	if shard == 0 && rep.violations.is_empty() {
